@@ -29,6 +29,16 @@ func evalC04(c *engine.Case) engine.Verdict {
 	deepFail := false
 	for rep := 0; rep < reps && v.Fail == ""; rep++ {
 		w := engine.NewWorld()
+		if strings.HasPrefix(c.Note, "errkind=") {
+			// the error values real converters return: the unsatisfied-argument
+			// error of a call of their own, a wrapped error, a plain one, a
+			// comparable value type -- each must come back as the very value
+			kind := c.Note[len("errkind="):]
+			w.FailWith = func(fs *engine.FuncSpec, exec int) error { return foreignError(kind, fs.ID, exec) }
+			if rep == 0 {
+				v.Class("foreign-error-value:" + kind)
+			}
+		}
 		target, args, err := w.Setup(sc)
 		if err != nil {
 			v.Class("setup-error")
@@ -79,7 +89,7 @@ func evalC04(c *engine.Case) engine.Verdict {
 			} else if failedAt < 0 {
 				// error without a failing body in this call: resolution error,
 				// or the cached error of a run-once converter that failed before
-				if fe, ok := o.Err.(*engine.FailErr); ok {
+				if fe, ok := o.Err.(*engine.FailErr); ok || (comparableErr(o.Err) && onceFailed[o.Err]) {
 					if !onceFailed[o.Err] {
 						v.Failf("call %d: Call returned body error %v but no body failed in this call and it is not a memoized failure", call, fe)
 					} else {
@@ -124,6 +134,47 @@ func evalC04(c *engine.Case) engine.Verdict {
 	}
 	v.NonTrivial = deepFail
 	return v
+}
+
+// valErr is an error of a comparable VALUE type.
+type valErr struct{ F, E int }
+
+func (e valErr) Error() string { return fmt.Sprintf("valErr f%d exec %d", e.F, e.E) }
+
+func comparableErr(err error) bool {
+	return err != nil && reflect.TypeOf(err).Comparable()
+}
+
+// foreignError makes the error value of a failing body for C04's
+// "errkind" cases.
+func foreignError(kind string, id, exec int) error {
+	switch kind {
+	case "unsat", "wrapped-unsat":
+		// what a converter that runs an argmapper call of its own returns when
+		// that call lacks an argument: *ErrArgumentUnsatisfied without inputs
+		// and converters
+		inner, err := argmapper.NewFunc(func(struct {
+			argmapper.Struct
+			Missing int
+		}) {
+		})
+		if err != nil {
+			panic(err)
+		}
+		res := inner.Call(engine.Quiet())
+		uerr := res.Err()
+		if uerr == nil {
+			panic("inner call succeeded")
+		}
+		if kind == "wrapped-unsat" {
+			return fmt.Errorf("f%d exec %d: %w", id, exec, uerr)
+		}
+		return uerr
+	case "plain":
+		return fmt.Errorf("plain failure of f%d exec %d", id, exec)
+	default:
+		return valErr{id, exec}
+	}
 }
 
 func genC04(g engine.G) *engine.Case {
@@ -176,7 +227,11 @@ func genC04(g engine.G) *engine.Case {
 	if g.Pct(25) && sc.Target.HasErr {
 		sc.Target.Fail = true
 	}
-	return &engine.Case{Sc: sc, Reps: 2}
+	c := &engine.Case{Sc: sc, Reps: 2}
+	if g.Pct(35) {
+		c.Note = "errkind=" + engine.Pick(g, []string{"unsat", "wrapped-unsat", "plain", "value"})
+	}
+	return c
 }
 
 func TestC04(t *testing.T) { runProp(t, "C04", genC04) }
